@@ -115,7 +115,7 @@ def bounded(tier, seed):
         for q in targets:
             ops = M.related_ops(q)
             for mode in modes:
-                rounds = 2 if tier == "quick" else 4
+                rounds = (2 if kind in ("MemoryCache", "FileCache", "SQLCache.from_sqlite", "StoreCache(MemoryStore)") else 1) if tier == "quick" else 4
                 for r in range(rounds):
                     h = list(ops)
                     rnd.shuffle(h)
